@@ -541,6 +541,10 @@ class ExecCore(object):
                       z3.ForAll([i], Implies(And(0 <= i, i < z3.Length(ks)), st.DK[a][ks[i]]), patterns=[ks[i]]),
                       z3.ForAll([i, j], Implies(And(0 <= i, i < j, j < z3.Length(ks)), ks[i] != ks[j])),
                       z3.ForAll([kq], Implies(st.DK[a][kq], z3.Contains(ks, z3.Unit(kq))))]
+                # the same fact with an explicit position (Skolem function): every key sits at some index of the snapshot
+                pos = z3.Function(str(fresh('keypos', IntS)), Val, IntS)
+                ax.append(z3.ForAll([kq], Implies(st.DK[a][kq], And(0 <= pos(kq), pos(kq) < z3.Length(ks), ks[pos(kq)] == kq)),
+                                    patterns=[st.DK[a][kq]]))
             return ('seq', ks, ty.k if isinstance(ty, Ty.TDict) else ty.t, ax)
         if isinstance(ty, Ty.TStr):
             raise Unsupported('iteration over the characters of a symbolic string')
